@@ -120,6 +120,8 @@ def rand_spec(r, family=None, max_dims=3, outs=None, small=True, limits_prob=0.2
 
 
 def rand_aw(r, d, ty):
+    if "tensor" in ty:
+        return [r.randint(1, 2) for _ in range(d)] if d <= 2 else []   # full tensors grow like prod(depth * weight): keep them small
     if "curved" in ty:
         return [r.randint(1, 3) for _ in range(d)] + [r.randint(0, 2) for _ in range(d)]
     return [r.randint(1, 3) for _ in range(d)]
